@@ -256,6 +256,32 @@ func checkIdentity(m *ir.Module) *identityReport {
 		}
 	}
 	walk(reflect.ValueOf(m), "m", 0)
+	// the type of every value definition is part of the structural dump (a cached type that differs
+	// between a constructed and a re-parsed module is a structural difference)
+	typeOf := func(key string, v interface{ Type() types.Type }) {
+		var t string
+		oc, _ := guard(func() error { t = v.Type().String(); return nil })
+		if oc != ocOk {
+			t = "PANIC"
+		}
+		rep.dump = append(rep.dump, key+" :: "+t)
+	}
+	for i, g := range m.Globals {
+		typeOf(fmt.Sprintf("global#%d", i), g)
+	}
+	for i, f := range m.Funcs {
+		typeOf(fmt.Sprintf("func#%d", i), f)
+		for j, b := range f.Blocks {
+			for k, in := range b.Insts {
+				if v, ok := in.(interface{ Type() types.Type }); ok {
+					typeOf(fmt.Sprintf("func#%d.block#%d.inst#%d", i, j, k), v)
+				}
+			}
+			if v, ok := b.Term.(interface{ Type() types.Type }); ok {
+				typeOf(fmt.Sprintf("func#%d.block#%d.term", i, j), v)
+			}
+		}
+	}
 	return rep
 }
 
@@ -521,6 +547,26 @@ func runC12(c *config) {
 		fmt.Fprintf(&big, "%%t%d = type { i32, %%t%d* }\n$c%d = comdat any\n@g%d = global i32 %d, comdat($c%d)\nattributes #%d = { nounwind }\n!%d = !{!%d}\n!n%d = !{!%d}\n", i, (i+7)%40, i, i, i, i, i, i, (i+3)%40, i, i)
 	}
 	inputs = append(inputs, big.String())
+	// named scalar types: constants typed with a named type next to constants of the plain type, in
+	// several functions and in separate inputs (shared constant objects must not carry state between parses)
+	inputs = append(inputs,
+		"%bool = type i1\n\ndefine i1 @f() {\n\tret i1 true\n}\n\ndefine %bool @g() {\n\tret %bool true\n}\n\ndefine %bool @h() {\n\tret %bool false\n}\n",
+		"define i1 @h() {\n\tret i1 false\n}\n\ndefine i1 @t() {\n\tret i1 true\n}\n",
+		"%flag = type i1\n\ndefine %flag @k() {\n\tret %flag false\n}\n",
+		"%word = type i32\n%real = type double\n@a = global %word 7\n@b = global i32 7\n@c = global %real 1.0\n@d = global double 1.0\n@e = global %word* null\n@z = global %real zeroinitializer\n",
+	)
+	firstRound := map[int]string{}
+	for idx, src := range inputs {
+		firstRound[idx] = digestOf(src)
+	}
+	// whatever was parsed or printed earlier in the process: a second round over all inputs, in reverse
+	for idx := len(inputs) - 1; idx >= 0; idx-- {
+		if d := digestOf(inputs[idx]); d != firstRound[idx] {
+			o.Fail("deterministic", "", "the result depends on what was parsed earlier in the process: "+d+" vs "+firstRound[idx], map[string]string{"src": inputs[idx]})
+		} else {
+			o.Pass("independent_of_prior_activity")
+		}
+	}
 	for idx, src := range inputs {
 		first := digestOf(src)
 		o.Stat("inputs." + strings.SplitN(first, ":", 2)[0])
